@@ -315,6 +315,12 @@ def negate_b(b):
 
 def modular_form(t, iv, N, negated=False):
     """recognise ((iv + a) % m) == b -> (a, b, m) as polynomials; None if not of that family"""
+    # truthiness of a remainder: `x % m` holds iff x % m != 0
+    if isinstance(t, ast.BinOp) and isinstance(t.op, ast.Mod):
+        t = ast.Compare(left=t, ops=[ast.NotEq()], comparators=[ast.Constant(value=0)])
+    if isinstance(t, ast.Compare) and len(t.ops) == 1 and isinstance(t.ops[0], ast.NotEq) and negated:
+        t = ast.Compare(left=t.left, ops=[ast.Eq()], comparators=t.comparators)
+        negated = False
     if negated:
         return None
     if not (isinstance(t, ast.Compare) and len(t.ops) == 1 and isinstance(t.ops[0], ast.Eq)):
